@@ -2,6 +2,7 @@
 (* C->S judge for C18.  One record per 32-bit word:                         *)
 (*  [id, w = <<hi, lo>>, ncl (number of classes whose check() claims w),    *)
 (*   cls (their names joined by "+"), dec (1 = ppc_mn(w) returned), decx,   *)
+(*   dcls (class of the object ppc_mn(w) returned),                          *)
 (*   mn (first token of str(), lower-cased), bin = <<hi, lo>> of .bin()     *)
 (*   (<<-1,-1>> if it raised), binx, str (1 = str() returned), strx,        *)
 (*   asm (1 = ppc_mn.asm(str) returned one word, 0 = raised, -1 = not       *)
@@ -9,6 +10,8 @@
 (* Clauses (property C18):                                                  *)
 (*  unique     at most one class claims the word                            *)
 (*  decode     a uniquely claimed word constructs                           *)
+(*  claim      the decoder ppc_mn(w) returns an instance of the one class   *)
+(*             that claims w, and nothing for a word no class claims        *)
 (*  undefined  a word that decodes has a (primary, extended) opcode the     *)
 (*             architecture assigns (PPC!Decode.ok)                         *)
 (*  mnemonic   the shown mnemonic is one of PPC!Shown for that opcode       *)
@@ -43,13 +46,15 @@ DiffSlots(d, a, b) ==
 Verdict(r) ==
   LET w == r.w
       d == Decode(w)
-      decoded == r.ncl = 1 /\ r.dec = 1
+      decoded == r.ncl <= 1 /\ r.dec = 1
       base == IF d.ok THEN d.base ELSE "(unassigned)"
   IN IF ~IsWord(w) THEN <<E("C18.machinery", "", "", "not a word")>>
      ELSE
       (IF r.ncl > 1 THEN <<E("C18.unique", base, "", r.cls)>> ELSE <<>>)
    \o (IF r.ncl = 1 /\ r.dec = 0 THEN <<E("C18.decode", base, "", r.decx)>> ELSE <<>>)
    \o (IF r.ncl = 0 /\ d.ok /\ d.valid THEN <<E("info.not_decoded", base, d.cat, "")>> ELSE <<>>)
+   \o (IF r.dec = 1 /\ r.ncl = 0 THEN <<E("C18.claim", base, "", "decoded as " \o r.dcls \o " although no class claims the word")>> ELSE <<>>)
+   \o (IF r.dec = 1 /\ r.ncl = 1 /\ r.dcls # r.cls THEN <<E("C18.claim", base, r.cls, "decoded as " \o r.dcls)>> ELSE <<>>)
    \o (IF ~decoded THEN <<>> ELSE
          (IF ~d.ok THEN <<E("C18.undefined", base, "", r.mn)>> ELSE <<>>)
       \o (IF d.ok /\ ~d.valid THEN <<E("info.invalid_form", base, "", r.mn)>> ELSE <<>>)
